@@ -249,6 +249,7 @@ func c12R1R3(p *core.Program, r *core.Report, np *core.Func) {
 
 	// call sites of the closure
 	nodeKindsWithComment := map[string]bool{}
+	nodeKindsWithDoc := map[string]bool{}
 	calls := 0
 	for _, f := range under() {
 		finfo := f.Info()
@@ -299,6 +300,9 @@ func c12R1R3(p *core.Program, r *core.Report, np *core.Func) {
 					switch sel.Sel.Name {
 					case "Doc":
 						r.Check(!trailing, "R1", site.F, construct, site.Call.Pos(), "a .Doc group is entered as leading", "a .Doc group is entered in the trailing index")
+						if po, has := posOwner[site.Call]; !trailing && has && core.SameRef(site.F.Info(), po, sel.X) {
+							nodeKindsWithDoc[core.NamedTypeName(site.F.Info().TypeOf(sel.X))] = true
+						}
 					case "Comment":
 						r.Check(trailing, "R1", site.F, construct, site.Call.Pos(), "a .Comment group is entered as trailing",
 							"a node's trailing .Comment group is entered in the leading (doc) index: it becomes the documentation of the declaration on the next line")
@@ -327,6 +331,13 @@ func c12R1R3(p *core.Program, r *core.Report, np *core.Func) {
 	}
 	if calls == 0 {
 		r.Anchor("R1", "calls of the collecting closure")
+	}
+	// the doc of a spec or field is looked up under the line above the DECLARATION: it is entered under the declaration's
+	// own position. (The generic visit enters every group under the line its End() is on - the same line only while
+	// End() is exact, which it is not for a block comment in a CRLF file or behind a //line directive.)
+	for _, k := range []string{"go/ast.ValueSpec", "go/ast.TypeSpec", "go/ast.Field"} {
+		r.Check(nodeKindsWithDoc[k], "R1", np, "the .Doc group of every "+k+" is entered under the declaration's own position", np.Node().Pos(), "collect(x.Doc, false, x.Pos()) in the arm of the node kind",
+			"no arm enters the .Doc group of a "+k+" under the position of the declaration itself: its documentation is found only through the line the comment group claims to end on, which differs from the line above the declaration for a block comment in a CRLF file (go/scanner strips the carriage returns from the text End() is computed from) - Doc answers nothing, tags included")
 	}
 	// the walk that indexes the comments descends everywhere: its callback answers true (a pruned subtree - a function
 	// signature, a block - can hold struct types whose fields have doc and trailing comments)
